@@ -44,7 +44,7 @@ def dispatch (fields : List String) : Verdict :=
     | [_, "ERR", _] => { modelOk := true, modelOut := "rejected" }
     | _ => handleEval false rest
   | "C05" :: rest => handleC05 rest
-  | "C07" :: "run" :: rest => handleC10 ("run" :: rest)   -- `-m` through the binary
+  | "C07" :: "run" :: rest => handleC10 ("run" :: rest) true   -- `-m` through the binary
   | "C07" :: rest => handleC07 rest
   | "C20" :: "run" :: rest => handleC10 ("run" :: rest)   -- `-c` through the binary
   | "C20" :: rest => handleC20 rest
